@@ -147,7 +147,7 @@ func c20Canon(src string) string {
 }
 
 // ---------- Markdown grammar ----------
-var c20Words = []string{"lorem", "ipsum", "Dolor", "x", "42", "a < b", "AT&T", "&amp;", "&copy;", "&#35;", `\*not em\*`, `\<`, `\&`, `"quoted"`, "it's", "{{ x }}", "{{ secret }}", "{ y }", "a_b_c", "2*3", "`", "1 > 0", "c:\\dir", "<!-- c -->", "$", "#tag", "[brackets]", "(parens)", "~"}
+var c20Words = []string{"lorem", "ipsum", "Dolor", "x", "42", "a < b", "AT&T", "&amp;", "&copy;", "&#35;", `\&amp;`, `\&ouml;`, `\&#42;`, "&#38;lt;", "&#x26;amp;", `\&lbrace;\&lbrace; x \&rbrace;\&rbrace;`, "&amp;#42;", `\*not em\*`, `\<`, `\&`, `"quoted"`, "it's", "{{ x }}", "{{ secret }}", "{ y }", "a_b_c", "2*3", "`", "1 > 0", "c:\\dir", "<!-- c -->", "$", "#tag", "[brackets]", "(parens)", "~"}
 
 func c20Word(r *Rng) string {
 	if r.Intn(3) == 0 {
@@ -170,10 +170,10 @@ func c20Inline(r *Rng, depth int) string {
 		case x < 10:
 			parts = append(parts, "`"+Pick(r, []string{"code", "a < b && c", "<tag>", "{{ v }}", "x | y", "&amp;", "a  b"})+"`")
 		case x < 11:
-			title := Pick(r, []string{"", "", ` "a title"`, ` "t & <u>"`, ` 'single'`, ` "with \"escaped\""`})
+			title := Pick(r, []string{"", "", ` "a title"`, ` "t & <u>"`, ` 'single'`, ` "with \"escaped\""`, ` "\&amp; &#38;lt;"`})
 			parts = append(parts, "["+c20Inline(r, depth-1)+Pick(r, []string{"", "", "", "\\\n", "  \n"})+"]("+Pick(r, []string{"https://example.com/a?b=1&c=2", "/rel/path", "#frag", "<url with spaces>", "http://x.y/ä", "mailto:a@b.c", "/p(q)"})+title+")")
 		case x < 12:
-			parts = append(parts, "!["+Pick(r, []string{"alt", "alt *em* text", "a & b", "", "two\nlines", "a \\* b"})+"]("+Pick(r, []string{"img.png", "/i/a b.png", "https://x.y/i.png?a=1&b=2"})+Pick(r, []string{"", ` "title"`})+")")
+			parts = append(parts, "!["+Pick(r, []string{"alt", "alt *em* text", "a & b", "", "two\nlines", "a \\* b", "\\&amp; x", "&#38;copy;"})+"]("+Pick(r, []string{"img.png", "/i/a b.png", "https://x.y/i.png?a=1&b=2"})+Pick(r, []string{"", ` "title"`})+")")
 		case x < 13:
 			parts = append(parts, Pick(r, []string{"<https://auto.link/x?a=1&b=2>", "<me@example.com>", "https://bare.link/path", "www.example.com"}))
 		case x < 14:
@@ -206,7 +206,7 @@ func c20Blocks(r *Rng, depth int) string {
 		case x < 6:
 			bl = append(bl, c20Inline(r, 0)+"\n"+Pick(r, []string{"===", "---"}))
 		case x < 7:
-			bl = append(bl, "```"+Pick(r, []string{"", "go", "html"})+"\n"+Pick(r, []string{"x := a < b && c\n  indented {{ v }}\n", "<p>&amp;</p>\n\n\nafter blank\n", "tab\there\n"})+"```")
+			bl = append(bl, "```"+Pick(r, []string{"", "go", "html", "\\&amp;", "&#38;lt;"})+"\n"+Pick(r, []string{"x := a < b && c\n  indented {{ v }}\n", "<p>&amp;</p>\n\n\nafter blank\n", "tab\there\n"})+"```")
 		case x < 8:
 			bl = append(bl, "    indented code <b>x</b>\n    second & line")
 		case x < 9 && depth > 0:
@@ -292,7 +292,7 @@ func runC20(r *Run) {
 	rr := r.Rng
 	n := 800
 	if r.Thorough() {
-		n = 10000
+		n = 40000
 	}
 	for i := 0; i < n; i++ {
 		src := c20Blocks(rr, 2)
@@ -326,7 +326,7 @@ func runC20(r *Run) {
 	// no failure on arbitrary bytes
 	nb := 300
 	if r.Thorough() {
-		nb = 5000
+		nb = 20000
 	}
 	alphabet := []string{"#", "*", "_", "`", "```", "[", "]", "(", ")", "!", "<", ">", "&", "|", "-", "\n", "\n\n", "    ", "> ", "1. ", "- ", "{{", "}}", "\\", "\x00", "\xff", "~~", ":", "\"", "x", " "}
 	for i := 0; i < nb; i++ {
